@@ -120,6 +120,16 @@ func init() {
 		return Value{T: r}
 	}
 	externEffects["reflect.DeepEqual"] = effNone
+	externModels["errors.Is"] = func(f *Frame, instr ssa.Instruction, c *ssa.CallCommon, args []Value, rt types.Type) Value {
+		e := f.e
+		e.predeclare("uf_errors_is", "(declare-fun uf_errors_is (Iface Iface) Bool)")
+		a, b := args[0].T, args[1].T
+		nilI := sym("inil", SIface)
+		// nil never "is" a non-nil target; an error is itself; otherwise a deterministic unknown (wrapping chains)
+		r := ite(eq(a, b), tTrue, ite(eq(a, nilI), tFalse, app(SBool, "uf_errors_is", a, b)))
+		return Value{T: e.defineBool(f.name("eis"), r)}
+	}
+	externEffects["errors.Is"] = effNone
 	externModels["errors.New"] = func(f *Frame, instr ssa.Instruction, c *ssa.CallCommon, args []Value, rt types.Type) Value {
 		r := f.e.havoc(f.name("err"), SIface)
 		f.e.assume(not(eq(r, sym("inil", SIface))))
